@@ -552,6 +552,22 @@ def check_refusal(sp, col, scratch):
             bad("save-empty", "an empty collection was saved without complaint")
         if os.path.exists(path):
             os.remove(path)
+        # a refusal saves nothing: the collection that is already stored at the target path must still be there afterwards
+        keep = ThetaHolder(n_thetas=1)
+        keep.add_theta(mk(7))
+        keep.save_h5(path)
+        before = open(path, "rb").read()
+        must_raise("save-empty-over-existing", lambda: h.save_h5(path))
+        try:
+            back = ThetaHolder.load_h5(path)
+            ok = len(back.thetas) == 1 and back.n_thetas == 1
+        except Exception as exc:  # noqa: BLE001
+            ok = False
+            bad("save-empty|destroyed-existing-file", f"after the refused save of an empty collection the file that was at the target path no longer loads: {short_exc(exc)}")
+        else:
+            if not ok or open(path, "rb").read() != before:
+                bad("save-empty|destroyed-existing-file", "the refused save of an empty collection changed the file that was at the target path")
+        os.remove(path)
     # grow up to the declared size, then one more
     extra = [mk(50 + i) for i in range(declared - held + 1)]
     for o in extra[:-1]:
